@@ -737,4 +737,13 @@ theorem stream_involutive (E : List UInt8 → List UInt8) (nonce : UInt64)
   · have : d[i]? = none := by simp; omega
     rw [this]; simp
 
+/-- the CTR stream only ever applies the block function to 16-byte counter blocks -/
+theorem stream_congr (E E' : List UInt8 → List UInt8) (nonce : UInt64)
+    (h : ∀ b, b.length = 16 → E b = E' b) (d : List UInt8) :
+    Spec.Ctr.stream E nonce d = Spec.Ctr.stream E' nonce d := by
+  unfold Spec.Ctr.stream keystream
+  congr 2
+  funext i
+  exact h _ (by simp [counterBlock, be64_length])
+
 end Percival.Proofs.AesCtr
